@@ -12,7 +12,7 @@ import (
 func init() {
 	register(&propDef{
 		ID:          "C12",
-		Explanation: "Decides, for the per-context registries of package templ and the generator's hoisting: R1 every `already rendered?` query is a check-then-record — on the not-yet-rendered side the paired record call follows with the same key, and the emission of the script/class/once body sits on that side only; R2 the registry methods touch only fields of their receiver (no package-level state), and the registry lives in the context value created per InitializeContext; R3 the two type switches over class containers agree: every container type from which the class-NAME switch extracts a component class has an acting case in the CSS-RULE switch, and every acting case of the rule switch has a case in the name switch (otherwise a class is named without its rule, or ruled under the unknown-type name); R4 on every emission path of an element writer, the calls that emit RenderCSSItems / RenderScriptItems precede the element's `<name` literal (GEM); R5 the CSS middleware records every registered class in the context it passes to the next handler and serves them from the stylesheet endpoint. R6 the map fields of the per-render state are only assigned freshly made maps (never an existing map, which would be shared between requests); R7 the once-handle registry is keyed by the handle's identity (its pointer), not by a field that only the constructor sets. R8 a render has one state object (stored by InitializeContext only, never copied by value), so marks are seen by the whole render. R9 the collector of script definitions and the attribute writer hand the event-handler predicate the attribute name in the same form. R10 every element emitter of the generator that hands an attribute list to the attribute emitter has handed the same list to the script collector first on every path (dominance), and the collector looks into both arms of conditional attributes. NOT decided: counts/positions in concrete rendered documents. R11 the collector of an element's script attributes hands the Then/Else lists of a conditional attribute to code that looks for conditional attributes itself (nesting).",
+		Explanation: "Decides, for the per-context registries of package templ and the generator's hoisting: R1 every `already rendered?` query is a check-then-record — on the not-yet-rendered side the paired record call follows with the same key, and the emission of the script/class/once body sits on that side only; R2 the registry methods touch only fields of their receiver (no package-level state), and the registry lives in the context value created per InitializeContext; R3 the two type switches over class containers agree: every container type from which the class-NAME switch extracts a component class has an acting case in the CSS-RULE switch, and every acting case of the rule switch has a case in the name switch (otherwise a class is named without its rule, or ruled under the unknown-type name); R4 on every emission path of an element writer, the calls that emit RenderCSSItems / RenderScriptItems precede the element's `<name` literal (GEM); R5 the CSS middleware records every registered class in the context it passes to the next handler and serves them from the stylesheet endpoint. R6 the map fields of the per-render state are only assigned freshly made maps (never an existing map, which would be shared between requests); R7 the once-handle registry is keyed by the handle's identity (its pointer), not by a field that only the constructor sets. R8 a render has one state object (stored by InitializeContext only, never copied by value), so marks are seen by the whole render. R9 the collector of script definitions and the attribute writer hand the event-handler predicate the attribute name in the same form. R10 every element emitter of the generator that hands an attribute list to the attribute emitter has handed the same list to the script collector first on every path (dominance), and the collector looks into both arms of conditional attributes. NOT decided: counts/positions in concrete rendered documents. R11 the collector of an element's script attributes hands the Then/Else lists of a conditional attribute to code that looks for conditional attributes itself (nesting). R12 a caller's slice of items is never filtered or appended to in place.",
 		Assumptions: []string{"map membership is the only state of the registry"},
 		Trusted:     []string{"go/types", "go/parser", "x/tools go/packages, go/cfg"},
 		Run:         runC12,
@@ -27,6 +27,7 @@ func runC12(c *Ctx) {
 	scriptAttributeSitesAgree(c, "C12.R9")
 	scriptsCollectedBeforeAttributes(c, "C12.R10")
 	scriptCollectorDescends(c, "C12.R11")
+	sharedSlicesNotAppendedInPlace(c, "C12.R12", ".")
 	p := c.pkg(".")
 	info := p.TypesInfo
 
